@@ -87,3 +87,49 @@ Proof.
   change (negb (beq [] [])) with false.
   destruct (negb (beq relay [])); destruct (negb (beq sig [])); cbn; rewrite ?has_prefix_app, ?drop_prefix_app; cbn; rewrite <- ?app_assoc; reflexivity.
 Qed.
+
+(** * the URL actually sent (sendBackResponse): AcsUrl + separator + query, separator "&" when the consumer URL already
+    contains a "?", else "?" *)
+Fixpoint has_qmark (s : bytes) : bool := match s with [] => false | c :: r => Ascii.eqb c "?" || has_qmark r end.
+Fixpoint after_qmark (s : bytes) : bytes := match s with [] => [] | c :: r => if Ascii.eqb c "?" then r else after_qmark r end.
+Definition sent_url (acs query : bytes) : bytes := acs ++ (if has_qmark acs then "&" else "?") :: query.
+
+Lemma after_qmark_app_no a r : has_qmark a = false -> after_qmark (a ++ "?" :: r) = r.
+Proof. induction a as [|c a IH]; cbn [has_qmark app after_qmark]; [reflexivity|]. destruct (Ascii.eqb c "?"); [discriminate|exact IH]. Qed.
+Lemma after_qmark_app_yes a r : has_qmark a = true -> after_qmark (a ++ r) = after_qmark a ++ r.
+Proof. induction a as [|c a IH]; cbn [has_qmark app after_qmark]; [discriminate|]. destruct (Ascii.eqb c "?"); [reflexivity|exact IH]. Qed.
+
+(** the query a verifier sees: the consumer URL's own query, if any, followed by the built one *)
+Lemma sent_query acs query : after_qmark (sent_url acs query) = if has_qmark acs then after_qmark acs ++ "&" :: query else query.
+Proof.
+  unfold sent_url. destruct (has_qmark acs) eqn:E; [now rewrite after_qmark_app_yes|now rewrite after_qmark_app_no].
+Qed.
+
+Lemma split_amp_nonempty s : split_amp s <> [].
+Proof. induction s as [|c s IH]; cbn [split_amp]; [discriminate|]. destruct (Ascii.eqb c "&"); [discriminate|]. destruct (split_amp s); [contradiction|discriminate]. Qed.
+Lemma split_amp_app a r : split_amp (a ++ "&" :: r) = split_amp a ++ split_amp r.
+Proof.
+  induction a as [|c a IH]; [reflexivity|]. cbn [app split_amp]. destruct (Ascii.eqb c "&"); [now rewrite IH|].
+  rewrite IH. destruct (split_amp a) as [|h t] eqn:E; [exfalso; exact (split_amp_nonempty a E)|reflexivity].
+Qed.
+Lemma param_app name l1 l2 : param name (l1 ++ l2) = match param name l1 with Some v => Some v | None => param name l2 end.
+Proof. induction l1 as [|s l1 IH]; cbn [app param]; [reflexivity|]. destruct (has_prefix s (name ++ ["="])); [reflexivity|exact IH]. Qed.
+
+(** a consumer URL whose own query names none of the three signed parameters does not disturb verification *)
+Definition acs_query_neutral (acs : bytes) : Prop :=
+  let segs := split_amp (after_qmark acs) in
+  param (b "SAMLResponse") segs = None /\ param (b "RelayState") segs = None /\ param (b "SigAlg") segs = None.
+
+Theorem redirect_octets_url acs resp relay alg sig : alg <> [] -> acs_query_neutral acs ->
+  verifier_octets (after_qmark (sent_url acs (BuildRedirectQuery resp relay alg sig))) = Some (BuildRedirectQuery resp relay alg []).
+Proof.
+  intros Ha (N1 & N2 & N3). rewrite sent_query. destruct (has_qmark acs); [|now apply redirect_octets].
+  pose proof (redirect_octets resp relay alg sig Ha) as R. unfold verifier_octets in *.
+  rewrite split_amp_app, !param_app, N1, N2, N3. exact R.
+Qed.
+
+(** ... and one that does name one of them breaks it: the RelayState of the consumer URL's own query is taken for the
+    message's when the message has none *)
+Theorem redirect_octets_url_refuted : exists acs resp alg sig,
+  verifier_octets (after_qmark (sent_url acs (BuildRedirectQuery resp [] alg sig))) <> Some (BuildRedirectQuery resp [] alg []).
+Proof. exists (b "https://sp/acs?RelayState=x"), (b "r"), (b "a"), (b "s"). vm_compute. discriminate. Qed.
